@@ -214,6 +214,15 @@ func TestVerif_C28_Codec(t *testing.T) {
 		run("de", verifh.Str(s))
 		tr.Count("de_listed", 1)
 	}
+	// every byte value at positions spread over valid members (peer id, separators, address, port, bit)
+	for _, m := range []string{pid + ":10.0.0.1:6881:1", pid + ":fe80::1:80:0"} {
+		for _, i := range []int{0, 1, 20, 39, 40, 41, 45, len(m) - 7, len(m) - 6, len(m) - 4, len(m) - 3, len(m) - 2, len(m) - 1} {
+			for b := 0; b < 256; b++ {
+				run("de", verifh.Str(m[:i]+string([]byte{byte(b)})+m[i+1:]))
+				tr.Count("de_byte_subst", 1)
+			}
+		}
+	}
 	for i := 0; i < verifh.Scale(1500, 150000); i++ {
 		p := core.NewPeerInfo(core.PeerID{}, c28RandAddr(r), r.Intn(70000)-100, false, r.Chance(1, 2))
 		copy(p.PeerID[:], r.Bytes(20))
